@@ -30,10 +30,52 @@ theorem ids_stable (old added new : ClassDef) (hnew : new.Perm (old ++ added))
     idToMethod new = idToMethod old ++ idToMethod added :=
   idToMethod_new old added new hnew hver
 
-example : ∃ old added new : ClassDef, new.Perm (old ++ added) ∧ (∀ o ∈ old, ∀ m ∈ added, o.ver < m.ver) ∧
-    old ≠ [] ∧ added ≠ [] ∧ new ≠ old ++ added :=
-  ⟨[⟨0, [102], 0⟩, ⟨1, [97], 1⟩], [⟨0, [97], 2⟩], [⟨0, [97], 2⟩, ⟨0, [102], 0⟩, ⟨1, [97], 1⟩],
-    by decide, by decide, by decide, by decide, by decide⟩
+/-- **Id stability with the exclusion spelled out.** For classes given WITH their aliases and name-mangled private
+replicated methods (`ClassX`), the statement holds under the explicit decidable hypothesis `NoAliasOrPrivate` for the old
+and the new code. Without it it is false: `ids_stable_alias_counterexample` (known finding D86). -/
+theorem ids_stable_no_alias_or_private (old new : ClassX) (added : ClassDef)
+    (ho : NoAliasOrPrivate old = true) (hn : NoAliasOrPrivate new = true)
+    (hnew : new.decls.Perm (old.decls ++ added)) (hver : ∀ o ∈ old.decls, ∀ m ∈ added, o.ver < m.ver) :
+    idToMethodX new = idToMethodX old ++ idToMethod added ∧
+    idToMethodX old = idToMethod old.decls ∧ idToMethodX new = idToMethod new.decls := by
+  have e : ∀ c : ClassX, NoAliasOrPrivate c = true → idToMethodX c = idToMethod c.decls := by
+    intro c hc
+    have : c.aliases = [] := by simpa [NoAliasOrPrivate] using hc
+    simp [idToMethodX, idToMethod, this]
+  rw [e old ho, e new hn]
+  exact ⟨ids_stable old.decls added new.decls hnew hver, rfl, rfl⟩
+
+example : ∃ c : ClassX, NoAliasOrPrivate c = true ∧ c.decls ≠ [] := ⟨⟨[⟨0, [102], 0⟩], []⟩, rfl, by decide⟩
+
+/-- **Known finding D86 as a theorem about the model**: with an alias the statement fails. Old code `f` (v0), `z` (v0)
+and `alias = f`; the new code only adds `f` (v1), the alias is now bound to the last definition (version 1). Id 1, which
+a call of `f` puts into the log on the old code (`f_v0`), denotes `z_v0` on the new code.
+(Names: `alias` = [97,108,105,97,115], `f` = [102], `z` = [122].) -/
+theorem ids_stable_alias_counterexample :
+    ∃ (old new : ClassX) (added : ClassDef),
+      new.decls = old.decls ++ added ∧ (∀ o ∈ old.decls, ∀ m ∈ added, o.ver < m.ver) ∧
+      NoAliasOrPrivate old = false ∧
+      (idToMethodX old)[1]? = some ⟨0, 0, [102, 95, 118, 48]⟩ ∧ (idToMethodX new)[1]? = some ⟨0, 0, [122, 95, 118, 48]⟩ ∧
+      mkName [102] 0 = [102, 95, 118, 48] ∧ mkName [122] 0 = [122, 95, 118, 48] := by
+  have d0 : digits 0 = [48] := by simp [digits, digitsRev]
+  have d1 : digits 1 = [49] := by simp [digits, digitsRev]
+  have hold : idToMethodX ⟨[⟨0, [102], 0⟩, ⟨0, [122], 0⟩], [⟨0, [97, 108, 105, 97, 115], 0⟩]⟩ =
+      [⟨0, 0, [97, 108, 105, 97, 115]⟩, ⟨0, 0, [102, 95, 118, 48]⟩, ⟨0, 0, [122, 95, 118, 48]⟩] := by
+    apply sortDescs_eq_of_sorted_perm (by decide)
+    simp only [methodsToEnumerate, Decl.desc, Alias.desc, mkName, d0, List.map_cons, List.map_nil, List.cons_append,
+      List.nil_append]
+    decide
+  have hnew : idToMethodX ⟨[⟨0, [102], 0⟩, ⟨0, [122], 0⟩, ⟨0, [102], 1⟩], [⟨0, [97, 108, 105, 97, 115], 1⟩]⟩ =
+      [⟨0, 0, [102, 95, 118, 48]⟩, ⟨0, 0, [122, 95, 118, 48]⟩, ⟨1, 0, [97, 108, 105, 97, 115]⟩, ⟨1, 0, [102, 95, 118, 49]⟩] := by
+    apply sortDescs_eq_of_sorted_perm (by decide)
+    simp only [methodsToEnumerate, Decl.desc, Alias.desc, mkName, d0, d1, List.map_cons, List.map_nil, List.cons_append,
+      List.nil_append]
+    decide
+  refine ⟨⟨[⟨0, [102], 0⟩, ⟨0, [122], 0⟩], [⟨0, [97, 108, 105, 97, 115], 0⟩]⟩,
+    ⟨[⟨0, [102], 0⟩, ⟨0, [122], 0⟩, ⟨0, [102], 1⟩], [⟨0, [97, 108, 105, 97, 115], 1⟩]⟩,
+    [⟨0, [102], 1⟩], rfl, by decide, rfl, ?_, ?_, by simp [mkName, d0], by simp [mkName, d0]⟩
+  · rw [hold]; rfl
+  · rw [hnew]; rfl
 
 /-- **Old and new code run the same method for every entry.** Every method id the old code knows denotes the same
 method (version, object, name) on the new code, and every `(object, method name)` keeps its id. -/
